@@ -1207,6 +1207,11 @@ class Executor:
                     v.ksort, v.dom, v.vkind, v.vsort = v2.ksort, empty_set(v2.ksort), v2.vkind, v2.vsort
                     if v2.val is not None:
                         v.val = fresh("dval", v2.val.sort())
+                elif (isinstance(v, DictV) and isinstance(v2, DictV) and v.ksort is not None and v.val is None
+                      and v2.val is not None and v2.ksort == v.ksort and n in untyped):
+                    # an earlier outcome stored a still-untyped value; this one knows the value sort
+                    v.vkind, v.vsort = v2.vkind, v2.vsort
+                    v.val = fresh("dval", v2.val.sort())
 
     def next_loop_id(self, node=None):
         if node is not None and id(node) in self.loop_ids:
